@@ -833,9 +833,58 @@ def execute(history, opts=None):
                 ctx.event(step, kind, "%d/%d" % (len(after) - len(bad), len(after)))
             else:
                 ctx.event(step, kind, "unknown-op")
+        _ladder(ctx, len(ops) + 1, G)
     finally:
         G.set_eps()
     return _result(ctx, history)
+
+
+_LADDER_T = [10.0 ** -k for k in range(0, 14)]
+
+
+def _ladder(ctx, step, G):
+    """J6 (epilogue of every history, no PRNG draw): the angular comparisons
+    Vector.parallel / Vector.orthogonal follow the setters.  Their tolerance is
+    not linear in a coordinate displacement (parallel is quadratic in the angle),
+    so no eps/1000 or 4-eps pair of the property's quantifier can tell a live
+    read from a stale one (per-site sweep, DESIGN 9.6).  Formula-free oracle: on
+    a ladder of deviations t = 1 .. 1e-13 the answer for a fixed pair must be
+    monotone in eps (loosening never turns True into False) and the answers at
+    eps = 1e-12 and eps = 1e-5 must differ for at least one rung - any tolerance
+    that follows eps moves its threshold by several decades over that range."""
+    V = G.Vector
+    fams = {
+        "parallel": [(lambda t: (V(2.0, 0.0, 0.0), V(1.0, t, 0.0))), (lambda t: (V(1.0, 2.0, 2.0), V(1.0 + 2 * t, 2.0 + t, 2.0 - 2 * t)))],
+        "orthogonal": [(lambda t: (V(2.0, 0.0, 0.0), V(t, 1.0, 0.0))), (lambda t: (V(1.0, 2.0, 2.0), V(2.0 + t, 1.0 + 2 * t, -2.0 + 2 * t)))],
+    }
+    table = {}
+    for j in range(12, 4, -1):
+        r = call(G.set_eps, float(F(1, 10 ** j))) if j % 2 == 0 else call(G.set_sig_figures, j)
+        if isinstance(r, Raised):
+            ctx.vio(step, "J6", "ladder/setter_raised", "ladder", disc(r), {"j": j})
+            return
+        for q, makers in fams.items():
+            row = []
+            for mk in makers:
+                for t in _LADDER_T:
+                    a, b = mk(t)
+                    row.append(call(lambda x, y: getattr(x, q)(y), a, b))
+                    row.append(call(lambda x, y: getattr(x, q)(y), b, a))
+            table[(q, j)] = row
+    for q in fams:
+        ctx.count("J6_checks")
+        rows = [table[(q, j)] for j in range(12, 4, -1)]
+        if any(not isinstance(x, bool) for row in rows for x in row):
+            bad = [disc(x) for row in rows for x in row if not isinstance(x, bool)][:1]
+            ctx.vio(step, "J6", "ladder/%s" % q, q, "bool->%s" % bad[0], {})
+            continue
+        mono = all((not lo) or hi for r1, r2 in zip(rows, rows[1:]) for lo, hi in zip(r1, r2))
+        responsive = rows[0] != rows[-1]
+        if not mono:
+            ctx.vio(step, "J6", "ladder/%s" % q, q, "not-monotone-in-eps", {"at_1e-12": rows[0], "at_1e-5": rows[-1]})
+        elif not responsive:
+            ctx.vio(step, "J6", "ladder/%s" % q, q, "same-answers-at-1e-12-and-1e-5", {"answers": rows[0]})
+    ctx.event(step, "LADDER", "".join("1" if x is True else "0" for x in table[("parallel", 12)][:8]))
 
 
 def _getters(ctx, step, G, M):
